@@ -17,6 +17,11 @@
 //	R. (pair.go) the real pair again: the configuration is reloaded (proxy added / removed / remote port changed / visitor
 //	   added, through Service.UpdateAllConfigurer) while frpc sits in its login back-off during an outage (listener down,
 //	   refusal, server restart, black hole); the recovered session must run the LAST configuration at both ends.
+//	G. (backlog.go) server side again: a peer that stops reading while it floods requests (unread replies: frps's send
+//	   queue and buffers full, its read loop parked in Send), then falls silent: session and port must still go away.
+//	F. (pair.go) a loss frps does not notice (connections frozen, no FIN / RST; frps timeout 90 s), then 1-2 refused
+//	   logins (relay diverts them to a refusing scripted server), then frps: it must recognise the run id, replace the
+//	   stale session and take the registrations. B also checks the run id carried by every Login it sees.
 //	E. (clientside.go) heartbeatTimeout == heartbeatInterval, the smallest timeout the validation accepts: refused, or
 //	   a session whose pings are all answered at once must stay up.
 //	C. real pair (pair.go): frpc <-> fault relay <-> frps with 1 / 20 / 150 proxies under sequences of cuts,
@@ -84,7 +89,7 @@ type caseRef struct {
 func main() {
 	defer h.DisableGC(10)()
 	run = h.NewRun(prop, "fault_enumeration")
-	run.Rule = "one case = one fault sequence: (monitor family, heartbeat interval/timeout in {1/2,1/3,2/5}, tcpMux on/off, number of configured proxies in {1,20,150}, the moment at which the peer falls silent or the ordered list of faults with their PRNG-chosen durations); distinct = distinct (family, interval/timeout, mux, proxies, moment / fault-kind list); family R = (outage kind, reload kind) pairs with the reload applied during the outage; family E adds interval = timeout in {1,2,3} (refused by validation, or the answered session must stay up); a case is non-trivial only if its session was established and at least one timed teardown or one recovery was observed"
+	run.Rule = "one case = one fault sequence: (monitor family, heartbeat interval/timeout in {1/2,1/3,2/5}, tcpMux on/off, number of configured proxies in {1,20,150}, the moment at which the peer falls silent or the ordered list of faults with their PRNG-chosen durations); distinct = distinct (family, interval/timeout, mux, proxies, moment / fault-kind list); family G = unread-backlog silence x mux; family F = frozen loss + n refused logins x mux x timeout; family R = (outage kind, reload kind) pairs with the reload applied during the outage; family E adds interval = timeout in {1,2,3} (refused by validation, or the answered session must stay up); a case is non-trivial only if its session was established and at least one timed teardown or one recovery was observed"
 	run.Assumptions = []string{
 		"upper bounds are bounded-progress watchdogs: teardown 3x configured timeout + 10 s, recovery 50 s (20 s max login back-off x 1.1 + 10 s dial timeout + 15 s); later events would be reported as violations of the bounded restatement",
 		"lower bounds use the harness clock stamp taken before the last valid ping / pong (or login reply) was written, and the stamp taken after the close was observed: load can only widen the measured span",
@@ -96,11 +101,13 @@ func main() {
 	deadPort = pa.Get()
 	lag = startLagMon()
 
-	nA := run.N(28, 112)
-	nB := run.N(32, 140)
+	nA := run.N(28, 100)
+	nB := run.N(32, 130)
 	nC := run.N(24, 90)
 	nE := run.N(3, 6)
 	nR := run.N(8, 16)
+	nG := run.N(2, 6) // silent peers with an unread backlog
+	nF := run.N(2, 6) // frozen loss followed by a refused login
 
 	// servers of family A: one per (timeout, mux)
 	for _, p := range hbPairs {
@@ -129,6 +136,12 @@ transport.maxPoolCount = 2
 	for i := 0; i < nA || i < nB || i < nC; i++ {
 		if i < nR {
 			plan = append(plan, caseRef{"R", i})
+		}
+		if i < nG {
+			plan = append(plan, caseRef{"G", i})
+		}
+		if i < nF {
+			plan = append(plan, caseRef{"F", i})
 		}
 		if i < nC {
 			plan = append(plan, caseRef{"C", i})
@@ -161,6 +174,10 @@ transport.maxPoolCount = 2
 			equalSettingsCase(c, ref.k)
 		case "R":
 			reloadCase(c, ref.k)
+		case "G":
+			backlogCase(c, ref.k)
+		case "F":
+			frozenRefusedCase(c, ref.k)
 		}
 	})
 	for _, s := range aSrv {
